@@ -1,4 +1,211 @@
 import EaselModel.Core.Proto
-/-! Line-protocol driver for the C19 model (stub: answers bad-op until the model lands). -/
-open EaselModel.Proto
-def main : IO Unit := runDriver () (fun s _ => (s, "bad-op"))
+import EaselModel.Containers.Keyhash
+import EaselModel.Containers.Heap
+import EaselModel.Containers.RedBlack
+import EaselModel.Containers.Stack
+import EaselModel.Containers.Quicksort
+/-! Line-protocol driver for the C19 models (keyhash, heap, red-black tree, stacks, quicksort). -/
+open EaselModel EaselModel.Proto EaselModel.Containers EaselModel.Random
+
+structure S where
+  kh : Keyhash.KH := Keyhash.create 128 128 2048
+  heap : Heap.Heap := Heap.create false
+  tree : RedBlack.Tree Int := .nil
+  stack : Stack.Stack Int := Stack.create
+  stype : String := "i"
+  dead : Bool := false         -- a fault was reported: every later op of the case answers `fault` too
+
+def fnv (h : UInt64) (x : UInt64) : UInt64 := (h ^^^ x) * (0x100000001b3 : UInt64)
+def fnv0 : UInt64 := 0xcbf29ce484222325
+
+def hex64 (x : UInt64) : String :=
+  let s := (Nat.toDigits 16 x.toNat)
+  String.ofList (List.replicate (16 - s.length) '0' ++ s)
+
+def parseInts (s : String) : List Int :=
+  if s == "-" || s == "" then [] else (s.splitOn ",").filterMap String.toInt?
+
+def showInts (l : List Int) : String :=
+  if l.isEmpty then "-" else ",".intercalate (l.map toString)
+
+def hashKey (h : UInt64) (k : List UInt8) : UInt64 :=
+  k.foldl (fun h b => fnv h b.toUInt64) (fnv h (UInt64.ofNat k.length))
+
+/-- string-API view of a key argument (`n = -1`): the bytes before the first NUL -/
+def asCStr (k : List UInt8) : List UInt8 := k.takeWhile (· != 0)
+
+def getAll (kh : Keyhash.KH) : Option UInt64 := Id.run do
+  let mut h := fnv0
+  for i in [0:kh.nkeys] do
+    match Keyhash.get kh i with
+    | some k => h := hashKey h k
+    | none => return none
+  return some h
+
+partial def showTree : RedBlack.Tree Int → String
+  | .nil => "."
+  | .node c a x b => "(" ++ (if c == .red then "R" else "B") ++ toString x ++ " " ++ showTree a ++ " " ++ showTree b ++ ")"
+
+def treeHash : RedBlack.Tree Int → UInt64 → UInt64
+  | .nil, h => fnv h 0
+  | .node c a x b, h =>
+    let h := fnv h (if c == .red then 1 else 2)
+    let h := fnv h (UInt64.ofInt x)
+    treeHash b (treeHash a h)
+
+def treeSize : RedBlack.Tree Int → Nat
+  | .nil => 0
+  | .node _ a _ b => treeSize a + 1 + treeSize b
+
+/-- element as the C side prints it after storing it in the typed array -/
+def discardPred (mode : String) (p : Int) (x : Int) : Bool :=
+  if mode == "even" then x % 2 == 0
+  else if mode == "lt" then x < p
+  else if mode == "eq" then x == p
+  else if mode == "all" then true
+  else false
+
+def qcmp (mode : String) (data : Array Int) (a b : Nat) : Int :=
+  let key (i : Nat) : Int :=
+    let v := data.getD i 0
+    if mode == "coarse" then v / 8 else v
+  let x := key a
+  let y := key b
+  if mode == "desc" then (if x > y then -1 else if x < y then 1 else 0)
+  else (if x < y then -1 else if x > y then 1 else 0)
+
+def fault (s : S) : S × String := ({ s with dead := true }, "fault")
+
+def step (s : S) (line : String) : S × String :=
+  if s.dead then (s, "fault") else
+  let ws := words line
+  let H := Keyhash.jenkins
+  match ws with
+  -- ---------------- keyhash
+  | "kh_new" :: _ =>
+    match argNat? ws "size", argNat? ws "kalloc", argNat? ws "salloc" with
+    | some a, some b, some c => ({ s with kh := Keyhash.create a b c }, "ok")
+    | _, _, _ => (s, "bad-op")
+  | "kh_default" :: _ => ({ s with kh := Keyhash.create 128 128 2048 }, "ok")
+  | "store" :: _ =>
+    match argHex? ws "key" with
+    | some k =>
+      let k := if (argNat? ws "str").getD 0 == 1 then asCStr k else k
+      match Keyhash.store H s.kh k with
+      | some (kh, st, idx) => ({ s with kh := kh }, (if st == .edup then "edup " else "ok ") ++ toString idx)
+      | none => fault s
+    | none => (s, "bad-op")
+  | "lookup" :: _ =>
+    match argHex? ws "key" with
+    | some k =>
+      let k := if (argNat? ws "str").getD 0 == 1 then asCStr k else k
+      match Keyhash.lookup H s.kh k with
+      | some (st, idx) => (s, if st == .ok then s!"ok {idx}" else "enotfound -1")
+      | none => fault s
+    | none => (s, "bad-op")
+  | "get" :: _ =>
+    match argNat? ws "i" with
+    | some i => match Keyhash.get s.kh i with
+      | some k => (s, "ok " ++ hexOrDash k)
+      | none => fault s
+    | none => (s, "bad-op")
+  | "getall" :: _ =>
+    match getAll s.kh with
+    | some h => (s, s!"ok n={s.kh.nkeys} h={hex64 h}")
+    | none => fault s
+  | "num" :: _ => (s, s!"ok {s.kh.nkeys}")
+  | "kh_reuse" :: _ => ({ s with kh := Keyhash.reuse s.kh }, "ok")
+  | "kh_clone" :: _ => ({ s with kh := Keyhash.clone s.kh }, "ok")
+  | "kh_sizes" :: _ => (s, s!"ok hashsize={s.kh.hashsize} kalloc={s.kh.kalloc} salloc={s.kh.salloc} sn={s.kh.smem.size}")
+  -- ---------------- heap
+  | "heap_new" :: _ => ({ s with heap := Heap.create ((argNat? ws "max").getD 0 == 1) }, "ok")
+  | "hins" :: _ =>
+    let vs := parseInts ((arg? ws "v").getD "-")
+    match Heap.insertAll s.heap vs with
+    | some h => ({ s with heap := h }, s!"ok {h.data.size}")
+    | none => fault s
+  | "hext" :: _ =>
+    match Heap.extractTop s.heap with
+    | some (h, true, v) => ({ s with heap := h }, s!"ok {v}")
+    | some (h, false, v) => ({ s with heap := h }, s!"eod {v}")
+    | none => fault s
+  | "hdrain" :: _ =>
+    match Heap.drain s.heap.data.size s.heap with
+    | some l => ({ s with heap := { s.heap with data := #[] } }, "ok " ++ showInts l)
+    | none => fault s
+  | "htop" :: _ => (s, s!"ok {Heap.topVal s.heap}")
+  | "hcount" :: _ => (s, s!"ok {s.heap.data.size}")
+  | "hreuse" :: _ => ({ s with heap := Heap.reuse s.heap }, "ok")
+  | "hvalidate" :: _ => (s, if Heap.validate s.heap then "ok" else "fail")
+  | "hdump" :: _ => (s, "ok " ++ showInts s.heap.data.toList)
+  -- ---------------- red-black tree
+  | "rb_new" :: _ => ({ s with tree := .nil }, "ok")
+  | "rb_ins" :: _ =>
+    let ks := parseInts ((arg? ws "k").getD "-")
+    let rec go (t : RedBlack.Tree Int) (ks : List Int) (acc : List String) : Option (RedBlack.Tree Int × List String) :=
+      match ks with
+      | [] => some (t, acc.reverse)
+      | k :: rest =>
+        match RedBlack.Tree.insert t k with
+        | none => none
+        | some (t', ins) => go t' rest ((if ins then "i" else "d") :: acc)
+    match go s.tree ks [] with
+    | some (t, flags) => ({ s with tree := t }, "ok " ++ String.join flags)
+    | none => fault s
+  | "rb_dump" :: _ => (s, "ok " ++ showTree s.tree)
+  | "rb_hash" :: _ => (s, s!"ok n={treeSize s.tree} h={hex64 (treeHash s.tree fnv0)}")
+  | "rb_lookup" :: _ =>
+    let ks := parseInts ((arg? ws "k").getD "-")
+    (s, "ok " ++ String.join (ks.map fun k => if RedBlack.Tree.lookup k s.tree then "y" else "n"))
+  | "rb_list" :: _ =>
+    match s.tree with
+    | .nil => (s, "fail")
+    | t =>
+      let desc := RedBlack.Tree.toLinkedDesc t []
+      ({ s with tree := .nil }, "ok desc=" ++ showInts desc ++ " asc=" ++ showInts desc.reverse)
+  -- ---------------- stacks
+  | "st_new" :: _ => ({ s with stack := Stack.create, stype := (arg? ws "t").getD "i" }, "ok")
+  | "push" :: _ =>
+    let vs := parseInts ((arg? ws "v").getD "-")
+    match Stack.pushAll s.stack vs with
+    | some st => ({ s with stack := st }, s!"ok {st.data.size}")
+    | none => fault s
+  | "pop" :: _ =>
+    match Stack.pop s.stack with
+    | (st, some x) => ({ s with stack := st }, s!"ok {x}")
+    | (st, none) => ({ s with stack := st }, "eod 0")
+  | "popall" :: _ => ({ s with stack := { s.stack with data := #[] } }, "ok " ++ showInts (Stack.popAll s.stack))
+  | "count" :: _ => (s, s!"ok {Stack.count s.stack}")
+  | "st_reuse" :: _ => ({ s with stack := Stack.reuse s.stack }, "ok")
+  | "st_dump" :: _ => (s, "ok " ++ showInts s.stack.data.toList)
+  | "discardtop" :: _ =>
+    match argNat? ws "n" with
+    | some n => let st := Stack.discardTopN s.stack n; ({ s with stack := st }, s!"ok {st.data.size}")
+    | none => (s, "bad-op")
+  | "discardsel" :: _ =>
+    let mode := (arg? ws "mode").getD "even"
+    let p := (argInt? ws "p").getD 0
+    match Stack.discardSelected s.stack (discardPred mode p) with
+    | some st => ({ s with stack := st }, s!"ok {st.data.size}")
+    | none => fault s
+  | "shuffle" :: _ =>
+    match argNat? ws "seed" with
+    | some sd => if sd = 0 then (s, "bad-op") else
+      match Stack.shuffle 1000000 (Rng.create .mersenne (UInt32.ofNat sd)) s.stack with
+      | some (st, _) => ({ s with stack := st }, "ok")
+      | none => fault s
+    | none => (s, "bad-op")
+  | "tostring" :: _ =>
+    let bytes := s.stack.data.toList.map (fun x => UInt8.ofNat (x % 256).toNat)
+    ({ s with stack := Stack.create }, "ok " ++ hexOrDash (Stack.convert2String { data := bytes.toArray, nalloc := s.stack.nalloc }))
+  -- ---------------- quicksort
+  | "qsort" :: _ =>
+    let data := (parseInts ((arg? ws "data").getD "-")).toArray
+    let mode := (arg? ws "mode").getD "asc"
+    match Quicksort.quicksort (qcmp mode data) data.size (data.size + 1) with
+    | .ok ord => (s, "ok " ++ showInts (ord.toList.map Int.ofNat))
+    | .fault => fault s
+    | .nofuel => (s, "nohalt")
+  | _ => (s, "bad-op")
+
+def main : IO Unit := runDriver ({} : S) step
